@@ -1015,7 +1015,7 @@ impl<'a> KotoLexer<'a> {
     /// peek_n(1) returns the token that will appear after that, and so forth.
     pub fn peek(&mut self, n: usize) -> Option<&LexedToken> {
         // n + 1 tokens need to be in the queue
-        let tokens_to_add = (n + 1).saturating_sub(self.token_queue.len());
+        let tokens_to_add = n.saturating_add(1).saturating_sub(self.token_queue.len());
 
         for _ in 0..tokens_to_add {
             if let Some(next) = self.next_token() {
